@@ -21,6 +21,12 @@ let ctor k col first stride nvals =
   | "q" -> mk_sequence (z col) (z first) (z stride) (z nvals)
   | _ -> failwith "kind"
 
+let inv_cache : (string * BinNums.coq_Z, BinNums.coq_Z) Stdlib.Hashtbl.t = Stdlib.Hashtbl.create 16
+let inv_of fld o g =
+  match Stdlib.Hashtbl.find_opt inv_cache (fld, g) with
+  | Some v -> v
+  | None -> let v = o.FieldOps.finv g in Stdlib.Hashtbl.add inv_cache (fld, g) v; v
+
 let get = function Some a -> a | None -> failwith "unconstructible assertion in a case that needs one"
 
 let show_a a = Stdlib.Printf.sprintf "ok %s %s %s %s" (h a.a_col) (h a.a_first) (h a.a_stride) (h a.a_nvals)
@@ -62,13 +68,9 @@ let eval = function
     (match from_transition o g n (z k) with
      | None -> "panic"
      | Some d ->
-       let dom = lmap (fun i -> fpow o g i) (range (int_of_z n)) in
-       Stdlib.Printf.sprintf "%s deg=%s exdom=%s evdom=%s v=%s xv=%s" (show_div d)
+       Stdlib.Printf.sprintf "%s deg=%s ev=%s" (show_div d)
          (match d_degree d with Some x -> h x | None -> "panic")
-         (bits (lmap (fun x -> is0 (eval_exemptions o d x)) dom))
-         (bits (lmap (fun x -> is0 (evaluate_at o d x)) dom))
-         (cat "," (lmap (fun x -> h (evaluate_at o d x)) xs))
-         (cat "," (lmap (fun x -> h (eval_exemptions o d x)) xs)))
+         (if xs = [] then "-" else cat "," (lmap (fun x -> h (evaluate_at o d x) ^ "/" ^ h (eval_exemptions o d x)) xs)))
   | "fa" :: fld :: n :: k :: col :: first :: stride :: nvals :: g :: xs ->
     let o = ops_of fld and g = z g and n = z n in
     let xs = lmap z xs in
@@ -78,11 +80,9 @@ let eval = function
        match from_assertion o g a n with
        | None -> "panic"
        | Some d ->
-         let dom = lmap (fun i -> fpow o g i) (range (int_of_z n)) in
-         Stdlib.Printf.sprintf "%s deg=%s evdom=%s v=%s" (show_div d)
+         Stdlib.Printf.sprintf "%s deg=%s ev=%s" (show_div d)
            (match d_degree d with Some x -> h x | None -> "panic")
-           (bits (lmap (fun x -> is0 (evaluate_at o d x)) dom))
-           (cat "," (lmap (fun x -> h (evaluate_at o d x)) xs)))
+           (if xs = [] then "-" else cat "," (lmap (fun x -> h (evaluate_at o d x)) xs)))
   | [ "bc"; fld; n; k; col; first; stride; nvals; g; x; tv; vals ] ->
     let o = ops_of fld and g = z g and n = z n in
     let a = get (ctor k col first stride nvals) in
@@ -91,7 +91,7 @@ let eval = function
      | Datatypes.Coq_inl PEWidth -> "width" | Datatypes.Coq_inl PELength -> "length"
      | Datatypes.Coq_inl PEOverlap -> "overlap" | Datatypes.Coq_inl PEPanic -> "panic"
      | Datatypes.Coq_inr _ ->
-       let inv_g = o.FieldOps.finv g in
+       let inv_g = inv_of fld o g in
        let c = bc_new o a vals inv_g in
        Stdlib.Printf.sprintf "poly=%s off=%s:%s at=%s steps=%s"
          (cat "," (lmap h c.bc_poly)) (h c.bc_off_steps) (h c.bc_off)
@@ -117,7 +117,7 @@ let eval = function
            let a0 = Stdlib.List.hd grp in
            let d = match from_assertion o g a0 n with Some d -> show_div d | None -> "panic" in
            let cols = lmap (fun a ->
-               let off = bc_poly_offset o a a.a_nvals (o.FieldOps.finv g) in
+               let off = bc_poly_offset o a a.a_nvals (inv_of fld o g) in
                Stdlib.Printf.sprintf "%s/%s/%s" (h a.a_col) (h (fst off)) (h a.a_nvals)) grp in
            Stdlib.Printf.sprintf "[%s cols=%s]" d (cat "," cols)) (groups sorted)))
   | [ "evd"; n; base; cycles ] -> h (eval_degree (z n) (z base) (lmap z (split_on ',' cycles)))
